@@ -39,7 +39,7 @@ def printStep (s : StepCode) : Toks :=
     | .call j => j ++ [paren (commaSep elems)]
     | .tuple => [paren (commaSep elems)]
     | .awaitCat => elems.flatten ++ awaitToks
-  (s.tbs.flatMap fun b => [kw "let", (Var.j b).tok, pu '=', Var.tb.tok, paren [usizeLit b], pu ';'])
+  (s.tbs.flatMap fun (b, arg) => [kw "let", (Var.j b).tok, pu '=', Var.tb.tok, paren [usizeLit arg], pu ';'])
   ++ s.defs.flatMap printCapDef
   ++ [kw "let", (Var.sr s.k).tok, pu '='] ++ joinExpr ++ [pu ';']
   ++ (match s.spawnJoin with
